@@ -17,6 +17,6 @@ CONSTANTS
   MaxSteps = 1
   HostileSteps = 1
   AllScopes = FALSE
-  GenWhat = {"checkerops", "checkerlist", "selectlist", "selectops", "listfail", "trees"}
+  GenWhat = {"checkerops", "checkerlist", "selectlist", "selectops", "listfail", "trees", "checkerfaults", "ill"}
   GenFull = FALSE
 CHECK_DEADLOCK FALSE
